@@ -335,6 +335,10 @@ def check(prop, mod, tier, seed, replay, scratch, t0, lines):
             json.dump({"mismatch": [{"i": i, "input": cases[i].desc, "obs": cases[i].obs, "coq": cases[i].coq} for i in mism[:40]],
                        "violation": [{"i": i, "known": known.get(i, 0), "input": cases[i].desc, "obs": cases[i].obs} for i in viol[:200]]},
                       fh, indent=1, default=str)
+    # fail closed: an undischarged obligation must be reported
+    for name, done in obligations:
+        if not done and not any(name in b for b in broken):
+            broken.append(f"obligation not discharged: {name}")
     open_known = load_known(prop)
     violations = []       # (case, reason)
     known_hits = {}
